@@ -69,7 +69,9 @@ package influxql
 //@   requires s != nil && s.r != nil && 0 <= s.r.i && s.r.i < 3 && 0 <= s.r.n && s.r.n <= 2
 //@   ensures 0 <= rd.i && rd.i < 3 && 0 <= rd.n && rd.n <= 3 && s.r == old(s.r)
 //@   ensures tok == WS && pos.Line == old(rd.buf[(rd.i-rd.n+3)%3].pos.Line) && pos.Char == old(rd.buf[(rd.i-rd.n+3)%3].pos.Char)
-//@   loop 1 invariant s.r == entry(s.r) && 0 <= s.r.i && s.r.i < 3 && 0 <= s.r.n && s.r.n <= 2
+//   -- extent: the run of white space is maximal; the rune that ended it is pushed back unless the input ended
+//@   ensures [C05] @pushback old(rd.n) == 0 ==> (rd.n >= 1 && rd.buf[(rd.i-(rd.n-1)+3)%3].ch != ' ' && rd.buf[(rd.i-(rd.n-1)+3)%3].ch != '\t' && rd.buf[(rd.i-(rd.n-1)+3)%3].ch != '\n') || rd.eof
+//@   loop 1 invariant s.r == entry(s.r) && 0 <= s.r.i && s.r.i < 3 && 0 <= s.r.n && s.r.n <= 2 && (entry(s.r.n) == 0 ==> s.r.n == 0)
 
 //@ func (*Scanner).skipUntilNewline
 //@   props C05 C04
@@ -91,6 +93,8 @@ package influxql
 //@   safety C05 C04
 //@   requires s != nil && s.r != nil && 0 <= s.r.i && s.r.i < 3 && 0 <= s.r.n && s.r.n <= 3
 //@   ensures 0 <= s.r.i && s.r.i < 3 && 1 <= s.r.n && s.r.n <= 3 && s.r == old(s.r)
+//   -- extent: the run of digits is maximal and the rune that ended it is pushed back (delivered next)
+//@   ensures [C05] @maximal !(s.r.buf[(s.r.i-(s.r.n-1)+3)%3].ch >= '0' && s.r.buf[(s.r.i-(s.r.n-1)+3)%3].ch <= '9')
 //@   loop 1 invariant s.r == entry(s.r) && 0 <= s.r.i && s.r.i < 3 && 0 <= s.r.n && s.r.n <= 3
 
 // *reader as an io.RuneScanner: ReadRune = read, UnreadRune = unread (used by
@@ -162,6 +166,11 @@ package influxql
 //@   ensures 0 <= rd.i && rd.i < 3 && 0 <= rd.n && rd.n <= 3 && s.r == old(s.r)
 //   -- a number starts at the rune delivered last (digit or '.')
 //@   ensures pos.Line == old(rd.buf[(rd.i-rd.n+3)%3].pos.Line) && pos.Char == old(rd.buf[(rd.i-rd.n+3)%3].pos.Char)
+//   -- extent: the rune that ended the number is pushed back (delivered next) and could not have continued it
+//@   let pend = rd.buf[(rd.i-(rd.n-1)+3)%3].ch
+//@   ensures [C05] @pushback rd.n >= 1
+//@   ensures [C05] @maximal (tok == NUMBER || tok == INTEGER || tok == DURATIONVAL) ==> !(pend >= '0' && pend <= '9')
+//@   ensures [C05] @maximalunit (tok == INTEGER || tok == DURATIONVAL) ==> !((pend >= 'a' && pend <= 'z') || (pend >= 'A' && pend <= 'Z') || pend == 'µ')
 //@   loop 1 invariant s.r == entry(s.r) && 0 <= s.r.i && s.r.i < 3 && 0 <= s.r.n && s.r.n <= 3
 //@   loop 2 invariant s.r == entry(s.r) && 0 <= s.r.i && s.r.i < 3 && 0 <= s.r.n && s.r.n <= 3
 
@@ -183,3 +192,24 @@ package influxql
 //@   ensures [C05] @tworunes (old(rd.n) == 0 && !old(rd.eof)) && (local(ch0) == '+' || local(ch0) == '-' || local(ch0) == '*' || local(ch0) == '/' || local(ch0) == '%' || local(ch0) == '&' || local(ch0) == '|' || local(ch0) == '^' || local(ch0) == '=' || local(ch0) == '!' || local(ch0) == '<' || local(ch0) == '>' || local(ch0) == '(' || local(ch0) == ')' || local(ch0) == ',' || local(ch0) == ';' || local(ch0) == ':') && (tok == EQREGEX || tok == NEQREGEX || tok == NEQ || tok == LTE || tok == GTE || tok == DOUBLECOLON) ==> (nextLine == pos.Line && nextChar == int(pos.Char + 2))
 //   -- string tokens too (property as stated; see finding on scanString)
 //@   claims [C05] @strpos old(rd.n) == 0 && (tok == STRING || tok == BADSTRING) ==> pos.Line == old(rd.pos.Line) && pos.Char == old(rd.pos.Char)
+
+// the constructor only wraps the io.Reader: it consumes no input, so the first token starts at the first character
+//@ func NewScanner
+//@   props C05 C04
+//@   safety C04
+//@   modifies fresh
+//@   ensures result != nil && result.r != nil && result.r.i == 0 && result.r.n == 0 && !result.r.eof
+//@   ensures [C05] @startpos result.r.pos.Line == 0 && result.r.pos.Char == 0
+//@   ensures [C05] @noinput rscur(result.r.r) == 0
+//@ func newBufScanner
+//@   props C05 C04
+//@   safety C04
+//@   modifies fresh
+//@   ensures result != nil && result.s != nil && result.s.r != nil && result.i == 0 && result.n == 0
+//@   ensures [C05] @noinput result.s.r.i == 0 && result.s.r.n == 0 && rscur(result.s.r.r) == 0 && result.s.r.pos.Line == 0 && result.s.r.pos.Char == 0
+//@ func NewParser
+//@   props C05 C04
+//@   safety C04
+//@   modifies fresh
+//@   ensures result != nil && result.s != nil && result.s.s != nil && result.s.s.r != nil && result.s.i == 0 && result.s.n == 0 && result.params == nil
+//@   ensures [C05] @noinput result.s.s.r.i == 0 && result.s.s.r.n == 0 && rscur(result.s.s.r.r) == 0 && result.s.s.r.pos.Line == 0 && result.s.s.r.pos.Char == 0
